@@ -33,9 +33,9 @@ def rv(x):
         return z3.RealVal(str(x))
     if isinstance(x, (float, rnp.floating)):
         if math.isnan(float(x)):
-            # a literal NaN written by the code: modelled as an arbitrary (unconstrained) value -- enough to see that something
+            # a literal NaN written by the code: modelled as one arbitrary (unconstrained) value -- enough to see that something
             # was overwritten; counterexamples are replayed with a real NaN
-            return ctx.fresh("nan")
+            return z3.Real("nan!value")       # ONE symbol: NaN written twice is the same (unknown) value, as equal_nan comparisons treat it
         if not math.isfinite(float(x)):
             raise Unsupported("non-finite float constant %r" % (x,))
         f = Fraction(float(x))
@@ -518,6 +518,10 @@ class AR:
     def _lin(self, o, sign):
         if isinstance(o, rnp.ndarray):
             return NotImplemented
+        if isinstance(o, (complex, rnp.complexfloating, SC)):
+            # real algebraic quantity +- complex number: a complex value with algebraic real part
+            c = SC.lift(o)
+            return SC(self + c.re, c.im) if sign == 1 else SC(self - c.re, SR(z3.RealVal(0)) - c.im)
         o = AR.lift(o)
         if o is None:
             return NotImplemented
@@ -539,6 +543,9 @@ class AR:
     def __mul__(self, o):
         if isinstance(o, rnp.ndarray):
             return NotImplemented
+        if isinstance(o, (complex, rnp.complexfloating)):
+            c = SC.lift(o)
+            return SC(self * c.re, self * c.im)
         o = AR.lift(o)
         if o is None:
             return NotImplemented
